@@ -130,6 +130,14 @@ FAMS = {
 }
 FAM_ORDER = ["str", "int", "float", "dec", "bool", "date", "ts", "tstz", "time"]
 
+# ---- instance options that have nothing to do with binding: every case must behave as on a default instance -------------
+# nop_regexes: statements matching a pattern are skipped; none of the patterns matches a statement of this check
+INSTANCE_OPTS = {
+    None: {},
+    "nop_regexes": {"nop_regexes": [r"^\s*CALL\b.*", r"^\s*GRANT\s+(\w+)\s+ON\b"]},
+}
+OPT_POS = ("sel", "ins", "where", "merge_ins")  # positions run again on every non-default instance (str family, all styles)
+
 # ---- paramstyles ----------------------------------------------------------------------------------------------------------
 # name -> (value of snowflake.connector.paramstyle when the connection is made, placeholder kind, container)
 STYLES = {
@@ -236,6 +244,18 @@ def p_del(b, F, v):
     return f"delete from tg where v = {b.ph(v)}"
 
 
+def p_merge_ins(b, F, v):
+    return f"merge into tg using (select 1 as id) s on tg.id = s.id when not matched then insert (id, v) values (s.id, {b.ph(v)})"
+
+
+def p_merge_upd(b, F, v):
+    return f"merge into tg using (select 1 as id) s on tg.id = s.id when matched then update set v = {b.ph(v)}"
+
+
+def p_merge_on(b, F, v):
+    return f"merge into tg using (select 1 as k) s on tg.v = {b.ph(v)} when matched then delete"
+
+
 def p_where(b, F, v):
     return f"select id from fx where v = {b.ph(v)} order by id"
 
@@ -283,6 +303,10 @@ POS = {
     "sessvar": (p_sessvar, "value", None),
     "sessvar_pct": (p_sessvar_pct, "value", None),
     "comment_lit": (p_comment_lit, "value", None),
+    # the same three roles inside a MERGE (a statement the library takes apart and re-assembles as several statements)
+    "merge_ins": (p_merge_ins, "value", None),
+    "merge_upd": (p_merge_upd, "value", None),
+    "merge_on": (p_merge_on, "match", None),
     "del": (p_del, "match", None),
     "where": (p_where, "match", None),
     "in2": (p_in2, "match", None),
@@ -290,8 +314,8 @@ POS = {
     "like_pat": (p_like_pat, "match", ("str",)),
     "like_subj": (p_like_subj, "match", ("str",)),
 }
-POS_ORDER = ["sel", "sel_rep", "ins", "upd", "del", "where", "in2", "inlist", "like_pat", "like_subj", "sessvar", "sessvar_pct", "comment_lit"]  # fmt: skip
-QUICK_FULL_POS = ("sel", "ins", "where", "like_pat", "comment_lit")  # quick tier: every string; other positions: breakers
+POS_ORDER = ["sel", "sel_rep", "ins", "upd", "merge_ins", "merge_upd", "merge_on", "del", "where", "in2", "inlist", "like_pat", "like_subj", "sessvar", "sessvar_pct", "comment_lit"]  # fmt: skip
+QUICK_FULL_POS = ("sel", "ins", "merge_ins", "where", "like_pat", "comment_lit")  # quick tier: every string; other positions: breakers
 SESSION_SETUP = ["set sv = 5", "set sw = 'w'", "set sp = '100%'"]
 
 
@@ -320,7 +344,12 @@ def expected(pos, F, v):
     if pos == "upd":
         tg0 = [(1, F.b1), (2, F.b2)]
         return [(1, 0)], ("exact", "exact"), tg0, [(1, v), (2, F.b2)]
-    if pos == "del":
+    if pos == "merge_ins":
+        return [(1,)], ("exact",), tg0, [(1, v)]
+    if pos == "merge_upd":
+        tg0 = [(1, F.b1), (2, F.b2)]
+        return [(1,)], ("exact",), tg0, [(1, v), (2, F.b2)]
+    if pos in ("del", "merge_on"):
         tg0 = [(1, v), (2, F.b2)]
         keep = [r for r in tg0 if not _eq_sql(r[1], v)]
         return [(len(tg0) - len(keep),)], ("exact",), tg0, keep
@@ -494,13 +523,13 @@ class Env:
     attribute is restored right after connect, so every later statement already runs under a *different* module
     value for format/qmark connections); fixture tables for one value family, loaded through raw DuckDB."""
 
-    def __init__(self, style, fam, pair=False):
+    def __init__(self, style, fam, pair=False, opt=None):
         import fakesnow.instance as inst
         from mc import observe
 
         self.observe = observe
-        self.style, self.F = style, FAMS[fam]
-        self.fs = inst.FakeSnow()
+        self.style, self.F, self.opt = style, FAMS[fam], opt
+        self.fs = inst.FakeSnow(**INSTANCE_OPTS[opt])
         old = _set_module_style(STYLES[style][0])
         try:
             self.conn = self.fs.connect(database="db1", schema="s1")
@@ -570,18 +599,18 @@ class Env:
 _ENVS: dict = {}
 
 
-def get_env(style, fam, pair=False):
-    k = (style, fam, pair)
+def get_env(style, fam, pair=False, opt=None):
+    k = (style, fam, pair, opt)
     e = _ENVS.get(k)
     if e is None:
         while len(_ENVS) >= 6:
             _ENVS.pop(next(iter(_ENVS))).close()
-        e = _ENVS[k] = Env(style, fam, pair)
+        e = _ENVS[k] = Env(style, fam, pair, opt)
     return e
 
 
-def drop_env(style, fam, pair=False):
-    e = _ENVS.pop((style, fam, pair), None)
+def drop_env(style, fam, pair=False, opt=None):
+    e = _ENVS.pop((style, fam, pair, opt), None)
     if e is not None:
         e.close()
 
@@ -640,6 +669,8 @@ def run_case(env, style, pos, fam, vi, acc, replay):
     v_ok, s_ok, mode = judge(fams, rows, tg_fams, tg1, obs_b, tg0)
     lv_ok, _, _ = judge(fams, rows, tg_fams, tg1, obs_l, tg0)
     cls = case_class(style, pos, fam, v)
+    if env.opt and cls != NUL_CLIENT:  # (the NUL class is one root cause whatever the instance)
+        cls += f",instance={env.opt}"
     detail = {
         "style": style, "position": pos, "family": fam, "value": v, "sql": sql_b, "params": b.params(),
         "expected_rows": rows, "expected_target": tg1, "bound": show(obs_b), "mode": mode,
@@ -684,21 +715,25 @@ def value_indexes(tier, pos, fam):
         idx = [i for i in idx if F.values[i] is None or F.values[i] in STR_BREAKERS]
     if pos == "sessvar_pct":
         idx = [i for i in idx if F.values[i] is None or fam != "str" or F.values[i] in STR_BREAKERS]
-    if pos == "inlist":
+    if pos in ("inlist", "merge_on"):
+        # merge_on: a MERGE for which no row qualifies reports NULL counts whatever way the NULL was written (the status
+        # row of MERGE is C12's subject, listed there: counts=null_when_no_row_qualifies); nothing about binding
         idx = [i for i in idx if F.values[i] is not None]
     return idx
 
 
 def grid(item, acc, tier):
-    """item = ('grid', style, pos, fam): every value of the family at that position under that style."""
-    _, style, pos, fam = item
+    """item = ('grid', style, pos, fam[, opt]): every value of the family at that position under that style (on an
+    instance made with the non-default options INSTANCE_OPTS[opt])."""
+    _, style, pos, fam, *rest = item
+    opt = rest[0] if rest else None
     n = 0
     for vi in value_indexes(tier, pos, fam):
-        env = get_env(style, fam)
-        dirty = run_case(env, style, pos, fam, vi, acc, {"kind": "grid", "style": style, "pos": pos, "fam": fam, "vi": vi})  # fmt: skip
+        env = get_env(style, fam, opt=opt)
+        dirty = run_case(env, style, pos, fam, vi, acc, {"kind": "grid", "style": style, "pos": pos, "fam": fam, "vi": vi, "opt": opt})  # fmt: skip
         n += 1
         if dirty:  # never let a deviating case influence the next one: the instance is thrown away
-            drop_env(style, fam)
+            drop_env(style, fam, opt=opt)
     if n:
         acc.sample({"item": item, "cases": n, "example_sql": POS[pos][0](Binder(style), FAMS[fam], FAMS[fam].values[0])})
     return n
@@ -1185,9 +1220,11 @@ VSTMT = {
     "P_sel": lambda b, p: f"select $v as x, {b.ph(p, 'p')} as y",
     "P_ins": lambda b, p: f"insert into tp (a, b) values ($v, {b.ph(p, 'p')})",
     "N_ins": lambda b, p: "insert into tp (a, b) values ($v, 'lit')",
+    # executemany over two equal parameter sets (its result / rowcount is not demanded, the stored rows are)
+    "M_ins": lambda b, p: f"insert into tp (a, b) values ($v, {b.ph(p, 'p')})",
 }
-VSTMT_QUICK = ["N_sel", "P_sel", "P_ins"]
-VSTMT_ALL = ["N_sel", "P_sel", "P_ins", "N_ins"]
+VSTMT_QUICK = ["N_sel", "P_sel", "P_ins", "M_ins"]
+VSTMT_ALL = ["N_sel", "P_sel", "P_ins", "N_ins", "M_ins"]
 
 
 def _as_varchar(x):
@@ -1206,17 +1243,31 @@ def var_expected(kind, val, p):
         return [(1,)], ("exact",), [(_as_varchar(val), _as_varchar(p))]
     if kind == "N_ins":
         return [(1,)], ("exact",), [(_as_varchar(val), "lit")]
+    if kind == "M_ins":
+        return [(1,)], ("exact",), [(_as_varchar(val), _as_varchar(p))] * 2
     raise AssertionError(kind)
 
 
 def var_step(env, cur, style, kind, val, p):
     b = Binder(style)
     sql = VSTMT[kind](b, p)
-    params = b.params() if kind.startswith("P_") else None
+    params = b.params() if kind[0] in "PM" else None
+    cur = cur or env.cur
     env.load("tp", [])
-    out = env.execute(sql, params, cur)
-    obs = (out, env.read("tp"), True)
     rows, fams, tp1 = var_expected(kind, val, p)
+    if kind == "M_ins":
+        from mc.util import exc_info
+
+        many = [params, b.params()]
+        try:
+            guarded(style, sql, many, lambda: cur.executemany(sql, many), many=True)
+            out = ("ok", rows)  # the result of executemany is not demanded
+        except Exception as e:  # noqa: BLE001
+            x = exc_info(e)
+            out = ("err", x[1], x[4][:120])
+    else:
+        out = env.execute(sql, params, cur)
+    obs = (out, env.read("tp"), True)
     ok, _, mode = judge(fams, rows, ("str", "str"), tp1, obs, [])
     return ok, mode, sql, params, obs, rows, tp1
 
@@ -1410,6 +1461,11 @@ def items_for(tier):
             for fam in FAM_ORDER:
                 if applicable(style, pos, fam):
                     items.append(("grid", style, pos, fam))
+    for opt in INSTANCE_OPTS:
+        if opt is not None:
+            for style in STYLE_ORDER:
+                for pos in OPT_POS:
+                    items.append(("grid", style, pos, "str", opt))
     for style in STYLE_ORDER:
         for which in ("sel", "ins"):
             for i in range(len(pair_values(tier))):
@@ -1495,7 +1551,7 @@ def replay(payload):
     acc = core.Acc()
     k = r["kind"]
     if k == "grid":
-        env = Env(r["style"], r["fam"])
+        env = Env(r["style"], r["fam"], opt=r.get("opt"))
         try:
             run_case(env, r["style"], r["pos"], r["fam"], r["vi"], acc, r)
         finally:
@@ -1508,7 +1564,7 @@ def replay(payload):
         finally:
             env.close()
     elif k == "many":
-        env = Env(r["style"], r["fam"])
+        env = Env(r["style"], r["fam"], opt=r.get("opt"))
         try:
             run_many(env, r["style"], STYLES[r["style"]][1], r["stmt"], FAMS[r["fam"]], many_sets(r["fam"], r["n"])[r["si"]], acc, r)  # fmt: skip
         finally:
